@@ -29,7 +29,7 @@ CAMERA_MODELS = {'SIMPLE_PINHOLE': 5, 'PINHOLE': 6, 'SIMPLE_RADIAL': 6, 'RADIAL'
 DTYPES = ['float32', 'float64', 'uint8', 'int32', 'float16', 'int8', 'uint16', 'int64']
 # the last five hold a character that str.splitlines() treats as a line boundary but a text file does not (form feed, vertical
 # tab, file separator, NEL, LINE SEPARATOR), INSIDE the identifier: a legal, comma-free, newline-free, trimmed identifier
-ID_TAILS = ['', ' x', 'é', '-0', '_b.c', ' with space', '\x0cff', '\x0bvt', '\x1cfs', '\x85nel', '\u2028ls']
+ID_TAILS = ['', ' x', 'é', '-0', '_b.c', ' with space', '\x0cff', '\x0bvt', '\x1cfs', '\x85nel', '\u2028ls', 'e\u0301', '\u212b']
 
 
 def H(x):
